@@ -352,7 +352,7 @@ def linearize_segment(events, sites):
                     mine = [j for j, t in enumerate(raw_t) if t == h['t'] and h['t']]
                     used.update(mine)
                     final = 1 if i == len(order) - 1 else 0
-                    ev = dict(blank, e='dmlist', a=[a[0], f, w, final], reps=[base['reps'][j] for j in mine])
+                    ev = dict(blank, e='dmlist', a=[a[0], f, w, final, 1 if i == 0 else 0], reps=[base['reps'][j] for j in mine])
                     if final:      # anything not sent from one of the sections is left for the validator to reject
                         ev['reps'] = ev['reps'] + [base['reps'][j] for j in range(len(raw_t)) if j not in used]
                         ev['lockviol'] = base['lockviol']
